@@ -5,13 +5,20 @@
 (*        HuffmanDecode(out): out must be Enc(s), n its length, and decoding must give s back *)
 (*   dec  in, ok, out = HuffmanDecode(in) on a (usually damaged) input: accepted iff the     *)
 (*        specification accepts, with the same output                                        *)
+(* First use by several goroutines (HuffInit.tla): a trace of rounds starts with              *)
+(*   input id, s, in = canonical encoding, sd/n = the driver's digest and length of s          *)
+(* lines, checked here against Enc/Dec, followed by one                                        *)
+(*   cres  id, ok, outd, n                                                                     *)
+(* line per concurrent decode of input id.  HuffmanDecode is a pure function of its input:     *)
+(* every such decode must succeed and return s (same digest and length), whatever the other    *)
+(* goroutines were doing.  Panic and hang lines match nothing.                                 *)
 EXTENDS HuffmanRFC7541, TraceIO
 
-VARIABLES cur, l
-tvars == <<cur, l>>
+VARIABLES cur, l, ins        \* ins: the inputs of a concurrent trace, id -> [sd, n]
+tvars == <<cur, l, ins>>
 Line == Trace[l]
 
-TInit == \E t \in 1..NT : cur = t /\ l = Meta.starts[t] + 1 /\ Trace[Meta.starts[t]].e = "hdr"
+TInit == \E t \in 1..NT : cur = t /\ l = Meta.starts[t] + 1 /\ Trace[Meta.starts[t]].e = "hdr" /\ ins = <<>>
 
 TEnc == /\ Line.e = "enc"
         /\ Line.out = Enc(Line.s)
@@ -24,9 +31,18 @@ TDec == /\ Line.e = "dec"
            /\ Line.ok = d.ok
            /\ d.ok => Line.out = d.out /\ Enc(d.out) = Line.in   \* accepted only if canonical
 
+TInput == /\ Line.e = "input" /\ Line.id = Len(ins) + 1
+          /\ Line.in = Enc(Line.s) /\ Dec(Line.in) = [ok |-> TRUE, out |-> Line.s]     \* canonical encoding of s
+          /\ Line.n = Len(Line.s)
+          /\ ins' = Append(ins, [sd |-> Line.sd, n |-> Line.n])
+
+TCres == /\ Line.e = "cres" /\ Line.id \in 1..Len(ins)
+         /\ Line.ok /\ Line.outd = ins[Line.id].sd /\ Line.n = ins[Line.id].n      \* = Dec(Enc(s)) = s
+         /\ UNCHANGED ins
+
 TNext == /\ l <= Meta.ends[cur]
          /\ l' = l + 1 /\ cur' = cur
-         /\ (TEnc \/ TDec)
+         /\ ((TEnc /\ UNCHANGED ins) \/ (TDec /\ UNCHANGED ins) \/ TInput \/ TCres)
 TSpec == TInit /\ [][TNext]_tvars
 Mark == HighWater(cur, l)
 =============================================================================
